@@ -294,7 +294,7 @@ def gen_prior(rng):
     return ["L", dy(rng, 1, 4), 1.0 + dy(rng, 1, 16)]
 
 
-def gen_model(rng, allow_arith=False, need_shared=0):
+def gen_model(rng, allow_arith=False, need_shared=0, plain=False):
     """Abstract model spec (see impl/c11_impl.build_model). Returns (spec, number of free parameters)."""
     shared = [["U", 0.0, 1.0] for _ in range(need_shared)]
     if rng.random() < 0.4 and not need_shared:
@@ -315,7 +315,7 @@ def gen_model(rng, allow_arith=False, need_shared=0):
 
     def comp(depth=0):
         c = comp0(depth)
-        if comp_free(c) == 0 and rng.random() < 0.93:
+        if comp_free(c) == 0 and (plain or rng.random() < 0.93):
             # a component without any free parameter is its own (rare) class of the stream
             ks = sorted(a for a, p in c["args"].items() if p[0] == "C")
             free[0] += 1
@@ -352,7 +352,7 @@ def gen_model(rng, allow_arith=False, need_shared=0):
         c = comp()
         c["name"] = "g%d" % i
         comps.append(c)
-    if not collection and comps[0]["cls"] in ("KT", "KN") and rng.random() < 0.85:
+    if not collection and comps[0]["cls"] in ("KT", "KN") and (plain or rng.random() < 0.85):
         collection = True
     # every shared prior demanded by a grid must appear in the model
     for k in range(need_shared):
@@ -393,7 +393,7 @@ def gen_fit(rng, idx, kind="single", real=None, allow_arith=False):
         dims = rng.choice([1, 1, 2])
         need_shared = dims
         grid = {"steps": 2, "shared": list(range(dims))}
-    model, nfree, arith = gen_model(rng, allow_arith=allow_arith, need_shared=need_shared)
+    model, nfree, arith = gen_model(rng, allow_arith=allow_arith, need_shared=need_shared, plain=real is not None)
     interrupt = None
     if kind == "single" and real is None and rng.random() < 0.3:
         interrupt = rng.choice(["before_samples", "after_samples"])
@@ -460,9 +460,21 @@ def gen_cases(ctx, classes):
     # (1) scripted single fits: CFits
     for k in range(nf):
         n = rng.randint(2, 4)
-        fits = [gen_fit(rng, i, allow_arith=(thorough and rng.random() < 0.08) or (not thorough and k == nf - 1 and i == 0))
-                for i in range(n)]
+        fits = [gen_fit(rng, i, allow_arith=thorough and rng.random() < 0.05) for i in range(n)]
         scen.append({"kind": "scenario", "flavour": "fits", "fits": fits, "completed_only": rng.random() < 0.3})
+    # (1b) one scenario per model class that is a recorded finding, always present
+    specials = {
+        "fixed": {"collection": True, "shared": [], "comps": [{"name": "g0", "cls": "K2", "args": {"a": ["C", 0.25], "b": ["C", 1.5]}},
+                                                                {"name": "g1", "cls": "K1", "args": {"u": ["U", 0.0, 1.0]}}]},
+        "arith": {"collection": True, "shared": [["U", 0.0, 1.0]], "comps": [{"name": "g0", "cls": "K2", "args": {"a": ["S", 0], "b": ["A", 0, 1.0]}}]},
+        "nested": {"collection": False, "shared": [], "comps": [{"name": "g0", "cls": "KT", "args": {"c": ["U", 0.0, 1.0], "pos": ["T", [["U", 0.0, 1.0], ["G", 0.0, 1.0]]]}}]},
+    }
+    for j, (nm, model) in enumerate(sorted(specials.items())):
+        f = gen_fit(rng, 0)
+        f.update({"model": model, "nfree": 3, "arith": nm == "arith", "n_analyses": 1, "name": "sp_" + nm})
+        f["scripts"][0]["interrupt"] = None
+        g = gen_fit(rng, 1)
+        scen.append({"kind": "scenario", "flavour": "fits", "fits": [f, g], "completed_only": False})
     # (2) directories with grid searches / real search classes / copies: CDir
     for k in range(nd):
         fits = []
@@ -716,7 +728,10 @@ def coq_case(c, r):
             specs.append(s)
             found.append(c_folder(folder_of(e)) if e else c_folder(dict(folder_of({"rel": "MISSING", "metadata": False, "completed": False, "grid_marker": None, "parent_identifier": None}))))
             d = drows.get(rec["identifier"])
-            direct.append(c_row(row_of(d)) if d else c_row(DUMMY_ROW))
+            if f.get("n_analyses", 1) > 1 or (r.get("direct") or {}).get("exc"):
+                direct.append("None")
+            else:
+                direct.append("(Some %s)" % (c_row(row_of(d)) if d else c_row(DUMMY_ROW)))
         paths = ["/".join(spec_path(s)) for s in specs]
         walk = [paths.index(p) for p in r["scrape"]["walk_order"] if p in paths]
         return "CFits %s %s %s %s %s %s" % (cbool(c.get("completed_only", False)), clist([c_spec(s) for s in specs]),
@@ -864,7 +879,7 @@ def oracle_scenario(c, r):
     if dr:
         drows = {f["id"]: f for f in dr.get("fits", [])}
         for f, rec, drec in zip(c["fits"], r["fits"], dr.get("fits_run", [])):
-            if f["search"]["cls"] != "Scripted" or drec.get("exc"):
+            if f["search"]["cls"] != "Scripted" or drec.get("exc") or drec.get("skipped") or dr.get("exc"):
                 continue
             if f["type"] == "single":
                 if rec.get("identifier") != drec.get("identifier"):
@@ -962,9 +977,14 @@ def run(ctx):
     light = [c for c in cases if c["kind"] != "scenario"]
     heavy = [c for c in cases if c["kind"] == "scenario"]
     payloads = [{"cases": light}] if light else []
-    chunk = 1 if ctx.tier == "quick" else 2
-    for i in range(0, len(heavy), chunk):
-        payloads.append({"cases": heavy[i:i + chunk]})
+    nproc = 7 if ctx.tier == "quick" else 12
+    buckets = [[] for _ in range(min(nproc, max(1, len(heavy))))]
+    for i, c in enumerate(heavy):
+        buckets[i % len(buckets)].append(c)
+    heavy = [c for b in buckets for c in b]
+    for b in buckets:
+        if b:
+            payloads.append({"cases": b})
     outs = common.run_impl_parallel("c11_impl", payloads, timeout=1500, workers=min(common.NCPU, 12))
     results = []
     for p, o in zip(payloads, outs):
@@ -1034,6 +1054,9 @@ def run(ctx):
             for b in bad[:6]:
                 i, msg = coq_idx[b]
                 c = ordered[i]
+                if os.environ.get("C11_DEBUG_DIR"):
+                    with open(os.path.join(os.environ["C11_DEBUG_DIR"], "term_%d.v" % b), "w") as fh:
+                        fh.write(hdr + "\nDefinition the_case : case := " + coq_cases[b] + ".\n")
                 ctx.failure("correspondence", "model and implementation disagree on a %s case" % c["kind"], c,
                             classes=case_classes(c), impl=summary(results[i].get("ok")), model=coq_cases[b][:3000],
                             broken={"kind": "correspondence", "name": "C11.check_case"}, found_input=msg is not None)
